@@ -113,9 +113,9 @@ def py_expand(cf, ck, v):
     elif ck == "geoip":
         r = py_geoip("geoip", v)
     elif ck == "ext":
+        if ":" not in v:
+            return ("err",)  # since /repo 2540ec6 a configuration error (it was a panic inside the optimizer goroutine)
         if cf in ("domain", "qname", "ip"):
-            if ":" not in v:
-                return ("crash",)
             fn, code = v.split(":", 1)
             r = py_geosite(fn, code) if cf != "ip" else py_geoip(fn, code)
         else:
@@ -761,7 +761,7 @@ def classify(ev):
     P, s = ev["P"], ev["sig"]
     ms = []
     if ev["crashed"] or (s and s[6] == 2):
-        ms.append(M_CRASH)
+        ms.append(M_CRASH)     # repaired by /repo 2540ec6: a crash is a regression
     if s and s[3] > 0:
         ms.append(M_NEG)
     if has_empty_expansion(P) or (s and s[7] > 0):
@@ -849,11 +849,11 @@ def describe(case, ev):
 
 
 WHAT = {
-    M_NEG: "two neighbouring negated single-condition rules with equal outbound are merged: !f(a)->x; !f(b)->x becomes !f(a,b)->x, so packets matching exactly one of a, b are no longer routed to x",
+    M_NEG: "REGRESSION of the repaired defect (/repo ec2de34): two neighbouring negated single-condition rules with equal outbound are merged: !f(a)->x; !f(b)->x becomes !f(a,b)->x, so packets matching exactly one of a, b are no longer routed to x",
     M_EMPTY: "a geodata reference that expands to no value leaves a condition with an empty value list; the builder emits no match set for it, so the condition counts as true (or the rule is spliced into the next one) instead of never matching",
     M_OUT: "MergeAndSortRulesOptimizer compares outbounds by Function.String, which prints only the first five parameters; neighbouring rules whose outbounds differ later are merged under the first outbound",
     M_DEDUP: "DeduplicateParamsOptimizer identifies values by Param.String: Key \"\"/Val \"k:v\" and Key \"k\"/Val \"v\" collide and one of two different values is dropped",
-    M_CRASH: "DatReaderOptimizer indexes fields[1] of an `ext:` value without a colon inside a worker goroutine: the process dies instead of returning a configuration error",
+    M_CRASH: "REGRESSION of the repaired defect (/repo 2540ec6): DatReaderOptimizer indexes fields[1] of an `ext:` value without a colon inside a worker goroutine: the process dies instead of returning a configuration error",
     M_OTHER: "decision of the compiled program differs from the rule list as written",
 }
 
@@ -921,8 +921,10 @@ def main(argv):
     cov = {"obligations": pinfo["obligations"], "discharged": pinfo["discharged"],
            "checker_cmd": "cd /verif/coq && coq_makefile -f _CoqProject -o Makefile && make -j16 " + " ".join(TARGETS) + " && coqc -Q . Dae C04_Props.v (Print Assumptions captured)",
            "theorems": pinfo.get("theorems", []), "print_assumptions": pinfo.get("assumptions", []),
-           "refuted_full_statements": ["C04_merge_sound_full (C04_merge_sound_refuted, C04_merge_outbound_refuted)",
-                                       "C04_dedup_sound_full (C04_dedup_sound_refuted)", "C04_pipeline_sound_full (C04_pipeline_sound_refuted)"],
+           "refuted_full_statements": ["C04_merge_sound_full (C04_merge_outbound_refuted; open finding C04/outbound-print-truncated)",
+                                       "C04_dedup_sound_full (C04_dedup_sound_refuted; open finding C04/dedup-print-collision)",
+                                       "C04_lower_sound_full (C04_lower_sound_refuted, C04_dat_empties_condition; open finding C04/empty-geodata-expansion)",
+                                       "C04_pipeline_sound_full (C04_pipeline_sound_refuted)"],
            "trusted_base": vlib.TRUSTED_BASE_COMMON + [
                "meaning of a single value (atom_sem) and of an outbound (out_sem) are parameters of the theorems; in the correspondence run they are tables filled by the real builders/matchers (one single-value rule per value) and routing.ParseOutbound",
                "pkg/geodata protobuf reader and netip prefix printing (the generator's own reading of its .dat data is compared with the model's expansion and with the implementation's)",
@@ -951,7 +953,7 @@ def main(argv):
         corpus = [c for c in corpus if not c.get("risky")]
         cases = corpus + [gen_case(rng, big=(not quick and i % 5 == 0)) for i in range(n_cases)]
         risky = [gen_case(rng, flags={"p_crash": 0.5, "p_neg": 0.0, "p_empty": 0.0, "p_err": 0.0, "p_longout": 0.0, "p_collide": 0.0}) for _ in range(n_risky * 40)]
-        risky = corpus_risky + [c for c in risky if case_atoms(c)[1] == "crash"][:n_risky]
+        risky = corpus_risky + [c for c in risky if any(k == "ext" and ":" not in v for r in c["rules"] for f in r["funcs"] for (k, v) in f["params"])][:n_risky]
 
         all_ev = []
         fatal = None
@@ -1059,14 +1061,14 @@ def main(argv):
             evaluations=len(all_ev), distinct_nontrivial=len(nontrivial), distinct_signatures=len(set(sigs)),
             rule="rule lists rendered as configuration text and parsed by the real parser; biased to neighbours sharing function/negation/outbound, repeated and overlapping values, "
                  "mixed keys, aliases dip/dport/domain keys, geosite/geoip/ext references incl. attribute filters, empty and failing expansions, outbounds with marks/must/must_rules; "
-                 "signature = (rules merged away, values removed by dedup, values added by geodata, negated-neighbour hazards, outbound-print hazards, dedup print collisions, model class, conditions left without values); "
+                 "signature = (rules merged away, values removed by dedup, values added by geodata, negated neighbours that must stay unmerged, outbound-print hazards, dedup print collisions, model class, conditions left without values); "
                  "non-trivial = distinct signatures in which at least one optimizer changed the list",
             traces_validated_against_impl=len([ev for ev in live if not ev["crashed"] and not any(c in (1, 5, 6, 11, 12) for (_, c) in ev["errors"])]),
             comparisons="per stage (alias, dat, merge+sort, dedup): impl AST = model AST; per probe: impl decision (optimised list) = spec decision on the list as written; "
                         "impl decision (optimised / un-merged list) = model's compiled program (lower + scan of the model's lists); model decision = spec (code 3 if the partial theorems' hypotheses hold, 7 otherwise)",
             cases_by_kind=kinds, skipped=len(all_ev) - len(live),
             cases_merging=len([s for s in sigs if s[0] > 0]), cases_dedup=len([s for s in sigs if s[1] > 0]), cases_geodata=len([s for s in sigs if s[2] > 0]),
-            cases_negated_hazard=len([s for s in sigs if s[3] > 0]), cases_model_error=len([s for s in sigs if s[6] == 1]), cases_model_crash=len([s for s in sigs if s[6] == 2]),
+            cases_negated_neighbours=len([s for s in sigs if s[3] > 0]), cases_ext_without_colon=len(risky), cases_model_error=len([s for s in sigs if s[6] == 1]), cases_model_crash=len([s for s in sigs if s[6] == 2]),
             cases_outside_partial_hypotheses=len([ev for ev in live if any(c == 7 for (_, c) in ev["errors"])]),
             impl_vs_spec_failures={k: {"count": v["count"], "status": v["status"], "minimal": v["minimal"]} for k, v in reported.items()},
             samples=[{"kind": cases[len(corpus)]["kind"], "config_text": "\n".join(render_rule(r) for r in cases[len(corpus)]["rules"]),
